@@ -275,8 +275,11 @@ fn eval_payload(name: &str, idx: usize, vn: &str, vt: &VarTy, payload: &Node) ->
         VarTy::Unit => {
             if is_nullish(payload) {
                 mk(VarVal::Unit)
-            } else {
+            } else if matches!(payload.kind, Kind::Alias(_)) {
                 Ref::Unspec
+            } else {
+                // a value where a unit is expected is a kind mismatch (a quoted empty string is a string)
+                Ref::Err("payload for a unit variant".into())
             }
         }
         VarTy::Newtype(t) => match eval(t, payload) {
@@ -570,6 +573,9 @@ pub fn mutants(doc: &Node) -> Vec<(String, Node)> {
         add("to_int", &|x| if plain_text(x).map(|t| t.bytes().all(|b| b.is_ascii_digit())).unwrap_or(false) { None } else { Some(p("91")) });
         add("to_word", &|x| if plain_text(x).map(|t| t.starts_with('t')).unwrap_or(false) { None } else { Some(p("t92")) });
         add("to_null", &|x| if is_nullish(x) { None } else { Some(p("~")) });
+        // the nearest miss of a null-like: an empty string written with quotes
+        add("to_empty_quoted", &|x| if matches!(&x.kind, Kind::Scalar { text, style } if text.is_empty() && *style != Style::Plain) { None } else { Some(Node::scalar("", Style::Double)) });
+        add("to_empty_single_quoted", &|x| if is_nullish(x) { Some(Node::scalar("", Style::Single)) } else { None });
         add("to_seq", &|x| if matches!(x.kind, Kind::Seq(_)) { None } else { Some(Node::seq(vec![p("93")])) });
         add("to_map", &|x| if matches!(x.kind, Kind::Map(_)) { None } else { Some(Node::map(vec![(p("kz"), p("94"))])) });
         for vn in ["U", "N", "T", "S"] {
